@@ -366,6 +366,23 @@ pub fn fine_amount(units: i64) -> i128 {
     let m = (units + FINE / 2).rem_euclid(FINE) - FINE / 2;
     ((n as i128) << 124).wrapping_add(m as i128)
 }
+/// the same embedding for unsigned 128-bit values (voting units): u128::MAX = 16 * FINE - 1
+pub fn fine_amount_u(units: i64) -> u128 {
+    let n = (units + FINE / 2).div_euclid(FINE);
+    let m = (units + FINE / 2).rem_euclid(FINE) - FINE / 2;
+    ((n as u128).wrapping_shl(124) * if n >= 16 { 0 } else { 1 }).wrapping_add(m as i128 as u128)
+}
+pub fn fine_units_u(v: u128, bad: i64) -> Value {
+    let n = (v >> 124) + ((v >> 123) & 1);
+    let base = if n >= 16 { 0u128 } else { n << 124 };
+    let m = v.wrapping_sub(base) as i128;
+    if m.abs() < (FINE / 2) as i128 {
+        json!(n as i64 * FINE + m as i64)
+    } else {
+        json!(bad)
+    }
+}
+
 /// distance of a model number of the i128-edge regime from the nearest whole unit; a driver ends a run in which
 /// this grows (the embedding is exact only while small parts stay far below FINE / 2)
 pub fn fine_small_part(x: i64) -> i64 {
